@@ -1,7 +1,43 @@
-(* C08  One handler and at most one response per request.  Statements only. *)
+(* C08  One handler and at most one response per request.
+   Statements only.  Model: coq/Server.v; monitors: coq/ServerMon.v (c08_ok, under the hypothesis
+   reuse_only_after_completion); proofs: coq/ServerState.v, coq/ServerWitness.v.
+
+   Proved here (state form, for every transport and every state):
+     - a request whose id is tracked is ignored (start_request refuses it; BaseChannel::poll_next
+       then goes on reading);
+     - a response is handed to the transport only while its id is tracked, and that untracks it
+       (so at most one response per tracked incarnation leaves the channel); a response for an
+       untracked id is dropped without any transport call;
+     - the hypothesis reuse_only_after_completion (B1) is NECESSARY: _refuted witness.
+   NOT yet proved as a theorem (checked on every run by the monitor on the real code's traces and by
+   the correspondence):
+     C08_monitor : forall c t0 ops, c08_ok c ops (fst (srun c t0 ops)) = true
+   i.e. under reuse_only_after_completion and stops_after_error: every request read is yielded
+   exactly once or ignored because its id is surely in flight (or throttled, C12); every response
+   written answers the latest incarnation of its id, which is not yet closed by its Cancel /
+   expiry / an earlier answer, with exactly the value its handler completed with; nothing is
+   written after the channel is dropped.  The simulation it needs is proved up to the poll step
+   for the unconditional part of the invariant (ServerSim6.top_poll); the part that depends on
+   the hypothesis (surely-open => tracked, provenance of queued responses) is not proved. *)
 From Coq Require Import List Bool Arith NArith.
 Import ListNotations.
-From TarpcV Require Import Base Transport TimerWheel Server ServerMon ServerWitness.
+From TarpcV Require Import Base Transport TimerWheel Server ServerMon ServerWitness ServerState.
+
+Theorem C08_duplicate_ignored :
+  forall (T : Type) id dl (s : @sstate T), tracked id s = true -> start_request id dl s = None.
+Proof. exact (@duplicate_ignored). Qed.
+
+Theorem C08_response_untracked_dropped :
+  forall (T : Type) (tp : transport T response cmsg) m (s : @sstate T),
+    tracked (resp_id m) s = false -> base_start_send tp m s = (None, s).
+Proof. exact (@response_untracked_dropped). Qed.
+
+Theorem C08_response_tracked_written_once :
+  forall (T : Type) (tp : transport T response cmsg) m (s : @sstate T) e s',
+    tracked (resp_id m) s = true -> base_start_send tp m s = (e, s') ->
+    tracked (resp_id m) s' = false
+    /\ exists r, s_log s' = CSend m r :: s_log s /\ e = match r with SOk => None | SErr => Some AWrite end.
+Proof. exact (@response_tracked_written). Qed.
 
 (* B1: the hypothesis reuse_only_after_completion is necessary.  `Req 1; handler done, response
    queued, sink not ready; Cancel 1; Req 1` makes the channel answer the second request with the
@@ -16,4 +52,21 @@ Theorem C08_reuse_after_cancel_refuted :
   /\ nth 10 (tr_of b1_cfg b1_ops) [] = [OHPolled 1; OExecPending 1; OGauges 0 0].
 Proof. exact b1_witness. Qed.
 
+(* non-vacuity: a duplicate is ignored, the handler's value is written exactly once, a late
+   response for a cancelled request is dropped *)
+Example C08_nonvacuous :
+  c08_ok (mkcfg None 1) [OCtl (TDeliver (MReq 1 1000 7 5)); OPoll; OCtl (TDeliver (MReq 1 1000 7 6)); OPoll;
+                         OHandlerPoll 0 (SFinish 9); OPoll]
+    (fst (srun (mkcfg None 1) t_unbounded
+        [OCtl (TDeliver (MReq 1 1000 7 5)); OPoll; OCtl (TDeliver (MReq 1 1000 7 6)); OPoll;
+         OHandlerPoll 0 (SFinish 9); OPoll])) = true
+  /\ nth 3 (fst (srun (mkcfg None 1) t_unbounded
+        [OCtl (TDeliver (MReq 1 1000 7 5)); OPoll; OCtl (TDeliver (MReq 1 1000 7 6)); OPoll;
+         OHandlerPoll 0 (SFinish 9); OPoll])) []
+     = [OCalls [CNext (RItem (MReq 1 1000 7 6)); CNext RPending; CReady TOk; CFlush TOk]; OPending; OGauges 1 1].
+Proof. vm_compute. split; reflexivity. Qed.
+
+Print Assumptions C08_duplicate_ignored.
+Print Assumptions C08_response_untracked_dropped.
+Print Assumptions C08_response_tracked_written_once.
 Print Assumptions C08_reuse_after_cancel_refuted.
